@@ -807,6 +807,7 @@ func c13(c *h.Ctx) {
 		c13Handshake(c, false, other, true, 2)
 	}
 	c13WriteInsideRead(c)
+	c13StaleDeadline(c)
 	// the opening handshake against its model; the JSON entry points
 	c13Hs(c)
 	c13JSON(c)
@@ -1128,6 +1129,92 @@ func (c *c13HookConn) Read(p []byte) (int, error) {
 // masking key, a payload, a fragmented or compressed message — and before it delivers the rest the endpoint writes
 // messages of its own. What it reads is what the peer sent; what it writes is what an endpoint that only writes puts
 // on the wire.
+// c13StaleDeadline: the write deadline of the transport is shared by the data path and the control path (the pong the
+// library sends by itself, WriteControl, the close reply). A data message written LATER, with the connection's default
+// (no) write deadline or with a new one, is delivered on a healthy transport whatever deadline a control frame had armed.
+func c13StaleDeadline(c *h.Ctx) {
+	for _, server := range []bool{false, true} {
+		for ctl := 0; ctl < 4; ctl++ {
+			for wr := 0; wr < 5; wr++ {
+				peerT := newWsFake(nil)
+				peer := ws.VerifNewConn(peerT, !server, 0, 256, false)
+				peer.WriteControl(ws.PingMessage, []byte("are-you-there"), time.Now().Add(time.Hour))
+				peer.WriteMessage(ws.TextMessage, []byte("hello"))
+				tr := newWsFake(peerT.Written())
+				conn := ws.VerifNewConn(tr, server, 0, 256, false)
+				ctlName := []string{"a ping was received (the library answered with a pong by itself)", "the application sent a ping with WriteControl (deadline in one second)",
+					"the application set a write deadline of one second, wrote a message, and cleared the deadline", "the application sent a pong with WriteControl (deadline in 10 ms)"}[ctl]
+				wrName := []string{"WriteMessage", "NextWriter+Write+Close", "WritePreparedMessage", "WriteJSON", "WriteMessage of 70000 bytes"}[wr]
+				in := fmt.Sprintf("server=%v: %s; five seconds pass; then %s with no write deadline", server, ctlName, wrName)
+				payload := []byte("later-message")
+				if wr == 4 {
+					payload = h.LCGBytes(70000, 9)
+				}
+				res := h.Safe(func() string {
+					switch ctl {
+					case 0:
+						if _, p, err := conn.ReadMessage(); err != nil || string(p) != "hello" {
+							return fmt.Sprintf("reading: %v", err)
+						}
+					case 1:
+						if err := conn.WriteControl(ws.PingMessage, []byte("p"), time.Now().Add(time.Second)); err != nil {
+							return "WriteControl: " + err.Error()
+						}
+					case 2:
+						conn.SetWriteDeadline(time.Now().Add(time.Second))
+						if err := conn.WriteMessage(ws.BinaryMessage, []byte{1, 2, 3}); err != nil {
+							return "first WriteMessage: " + err.Error()
+						}
+						conn.SetWriteDeadline(time.Time{})
+					case 3:
+						if err := conn.WriteControl(ws.PongMessage, []byte("p"), time.Now().Add(10*time.Millisecond)); err != nil {
+							return "WriteControl: " + err.Error()
+						}
+					}
+					tr.Advance(5 * time.Second)
+					var err error
+					switch wr {
+					case 0, 4:
+						err = conn.WriteMessage(ws.BinaryMessage, payload)
+					case 1:
+						var w io.WriteCloser
+						if w, err = conn.NextWriter(ws.BinaryMessage); err == nil {
+							if _, err = w.Write(payload); err == nil {
+								err = w.Close()
+							}
+						}
+					case 2:
+						var pm *ws.PreparedMessage
+						if pm, err = ws.NewPreparedMessage(ws.BinaryMessage, payload); err == nil {
+							err = conn.WritePreparedMessage(pm)
+						}
+					case 3:
+						err = conn.WriteJSON(string(payload))
+						payload = []byte("\"later-message\"\n")
+					}
+					if err != nil {
+						return "the later write failed: " + err.Error()
+					}
+					// the peer receives it
+					back := ws.VerifNewConn(newWsFake(tr.Written()), !server, 0, 256, false)
+					for i := 0; i < 4; i++ {
+						_, p, err := back.ReadMessage()
+						if err != nil {
+							return "the peer does not receive the later message: " + err.Error()
+						}
+						if bytes.Equal(p, payload) {
+							return "ok"
+						}
+					}
+					return "the peer does not receive the later message"
+				})
+				c.Hold(res == "ok", "write_after_control_deadline", in, res, "ok")
+				c.Case("stale-deadline", in, true)
+			}
+		}
+	}
+}
+
 func c13WriteInsideRead(c *h.Ctx) {
 	for _, deflate := range []bool{false, true} {
 		for _, server := range []bool{false, true} {
